@@ -142,9 +142,16 @@ func (e *Engine) acquire(fr *Frame, spec *lockSpec, l *Loc) {
 		}
 		fr.assume(tt)
 	}
+	// a new region starts: nothing has been signalled in it yet
+	if _, ok := vc.heapSort["CV$signalled"]; !ok {
+		vc.heapSort["CV$signalled"] = arrSort(sBool)
+	}
+	vc.heapSet(fr.st, "CV$signalled", "((as const (Array Int Bool)) false)")
 	top := fr.topFrame()
 	top.held = append(top.held, &heldLock{spec: spec, ref: l.ref, loc: l})
-	top.regionSt = fr.st.clone()
+	rs := fr.st.clone()
+	rs.region = nil
+	fr.st.region = rs
 	top.nAcquire++
 }
 
@@ -160,7 +167,7 @@ func (e *Engine) release(fr *Frame, spec *lockSpec, l *Loc, isUnlock bool) {
 		kind = "wait"
 	}
 	for i, inv := range spec.inv {
-		tt, err := fr.evalClause(inv, &evalCtx{fr: fr, st: fr.st, old: fr.entry, names: map[string]*Val{"self": self}, callee: "lock-invariant", region: top.regionSt})
+		tt, err := fr.evalClause(inv, &evalCtx{fr: fr, st: fr.st, old: fr.entry, names: map[string]*Val{"self": self}, callee: "lock-invariant", region: fr.st.region})
 		if err != nil {
 			fr.stale("lock-invariant "+spec.key, err)
 			continue
@@ -172,7 +179,7 @@ func (e *Engine) release(fr *Frame, spec *lockSpec, l *Loc, isUnlock bool) {
 			if uc.Ord != n {
 				continue
 			}
-			tt, err := fr.evalClause(uc.C, &evalCtx{fr: fr, st: fr.st, old: fr.entry, names: top.topNames, region: top.regionSt})
+			tt, err := fr.evalClause(uc.C, &evalCtx{fr: fr, st: fr.st, old: fr.entry, names: top.topNames, region: fr.st.region})
 			if err != nil {
 				fr.stale(fmt.Sprintf("%s#%d/%s", kind, n, clauseName("region", i, uc.C)), err)
 				continue
